@@ -208,7 +208,7 @@ const TEXT_VALUES: &[&[&str]] = &[&["some"], &["a", "pinch"], &["to", "taste"], 
 const TEXT_VALUES_NUMLEAD: &[&[&str]] = &[&["1", "scant"], &["2", "heaped"], &["3", "or", "4"], &["1/2", "a"], &["1.5", "level"], &["2-3", "big"], &["1", "1/2", "heaped"], &["2", "1/2", "or", "so"], &["1", "/", "2", "a", "b"]];
 /// canonical parser only (no ADVANCED_UNITS there): a number followed by words without `%` is one text value
 const TEXT_VALUES_SPACED_UNIT: &[&[&str]] = &[&["2", "1/2", "cups"], &["1", "kg"], &["3", "big", "ones"], &["1", "1/2", "(heaped)", "tbsp"]];
-const NOTE_WORDS: &[&str] = &["finely", "chopped", "sifted", "room", "temperature", "large", "peeled", "crème"];
+const NOTE_WORDS: &[&str] = &["finely", "chopped", "sifted", "room", "temperature", "large", "peeled", "crème", "~200", "#10", "@home", "50%", "a|b"];
 // free keys and standard keys whose value may be any text
 const META_KEYS: &[&str] = &["note", "origin", "k1", "my key", "Kategorie", "x", "title", "description", "cuisine", "author", "tags", "course", "prep time", "cook time", "locale", "time"];
 const ESCAPABLE: &[char] = &['@', '#', '~', '{', '}', '>', '=', '\\', '-', '['];
